@@ -31,6 +31,7 @@ type drvRequest struct {
 	Workers      int               `json:"workers,omitempty"`
 	UDPSize      int               `json:"udpsize,omitempty"`
 	OtherUDPSize int               `json:"other_udpsize,omitempty"`
+	Churn        int               `json:"churn,omitempty"`
 	Filter       []uint32          `json:"filter,omitempty"`
 	ResetCache   bool              `json:"reset_cache,omitempty"`
 	Mirror       bool              `json:"mirror,omitempty"`
